@@ -284,6 +284,23 @@ impl Scheduler {
                 // jobs of the execution graph
                 for &from_coord in from.replicas.values().flatten() {
                     let to: Vec<_> = to.replicas.values().flatten().collect();
+                    if (from.is_only_one_strategy || fragile)
+                        && to.len() > 1
+                        && !to.iter().any(|to_coord| {
+                            to_coord.host_id == from_coord.host_id
+                                && to_coord.replica_id == from_coord.replica_id
+                        })
+                    {
+                        // the next block has fewer replicas and none with the coordinates of this
+                        // one: send to a single replica of it (the same choice on every host)
+                        // instead of leaving this replica without a destination, which would
+                        // silently drop its output
+                        let mut sorted = to.clone();
+                        sorted.sort();
+                        let index = from.global_ids[&from_coord] as usize % sorted.len();
+                        self.network
+                            .connect(from_coord, *sorted[index], typ, fragile);
+                    }
                     for &to_coord in &to {
                         if from.is_only_one_strategy || fragile {
                             if to.len() == 1
